@@ -35,9 +35,9 @@ theorem ctLoop_ok_pos (tags : List Tag) (tm lf : Int) (hc : Bool) (rem : Nat) (h
          have := ctLoop_ok_ge _ _ _ _ _ _ _ _ _ _ _ _ _ h
          omega))
 
-theorem checkTags_ok_pos (tags : List Tag) (cs : Option Nat) (tm lf : Int) (bs : Bytes) :
-    OkGe 1 (checkTags tags cs tm lf bs) := by
-  unfold checkTags
+theorem checkTagsRaw_ok_pos (tags : List Tag) (cs : Option Nat) (tm lf : Int) (bs : Bytes) :
+    OkGe 1 (checkTagsRaw tags cs tm lf bs) := by
+  unfold checkTagsRaw
   simp only
   repeat' split
   all_goals (first | (simp [OkGe, ctRet]; done) | skip)
@@ -49,6 +49,17 @@ theorem checkTags_ok_pos (tags : List Tag) (cs : Option Nat) (tm lf : Int) (bs :
     have := ctLoop_ok_pos tags tm lf cs.isSome ((tags.length : Int) - ctTagno (cs.getD 0) tm).toNat (by omega)
       (ctTagno (cs.getD 0) tm) (cs.getD 0) (-1) 0 0 (-1) 0 bs
     simpa using this
+
+theorem checkTags_ok_pos (tags : List Tag) (cs : Option Nat) (tm lf : Int) (bs : Bytes) :
+    OkGe 1 (checkTags tags cs tm lf bs) := by
+  unfold checkTags
+  simp only
+  split
+  · rename_i hm
+    intro h
+    simp only [beq_iff_eq] at hm
+    rw [hm] at h; cases h
+  · exact checkTagsRaw_ok_pos tags cs tm lf bs
 
 theorem decPrim_progress (tags : List Tag) (k : PKind) (tm : Int) : ProgressFresh (decPrim tags k tm) := by
   intro q n' c h
@@ -179,7 +190,7 @@ theorem ostrFetch_ret_ne_ok (l : Int) (q : Bytes) (rc : Rc) (h : ostrFetch l q =
   repeat' split at h
   all_goals first | (cases h; done) | (injection h with h; rw [← h]; simp)
 
-theorem ostrTlv_ret_fail (allTags : List Tag) (s : OS) (t : TL) (s' : OS) (rc : Rc) (n : Nat)
+theorem ostrTlv_ret_fail (allTags : Nat → Tag → Tag) (s : OS) (t : TL) (s' : OS) (rc : Rc) (n : Nat)
     (h : ostrTlv allTags s t = .ret s' rc n) : rc = .fail := by
   unfold ostrTlv at h
   simp only at h
@@ -224,10 +235,10 @@ theorem ostrDec_progress (tags allTags : List Tag) (bits : Bool) (tm : Int) :
         simp only [List.drop_zero, Nat.zero_add] at h
         have e1 : ∀ q', ostrIt tags allTags bits tm
             ⟨⟨1, (checkTags tags (some 0) tm (-1) q).step, (checkTags tags (some 0) tm (-1) q).lastLen⟩, false, [], 0, []⟩ q' =
-            ostrFetchPart allTags
+            ostrFetchPart (ostrEx tags allTags bits tm)
               ⟨⟨1, (checkTags tags (some 0) tm (-1) q).step, (checkTags tags (some 0) tm (-1) q).lastLen⟩, false, [], 0, []⟩ q' := by
           intro q'; unfold ostrIt ostrFetchPart; rfl
-        cases hit2 : ostrFetchPart allTags
+        cases hit2 : ostrFetchPart (ostrEx tags allTags bits tm)
             ⟨⟨1, (checkTags tags (some 0) tm (-1) q).step, (checkTags tags (some 0) tm (-1) q).lastLen⟩, false, [], 0, []⟩ q with
         | ret s2 rc n =>
           rw [iterate_ret _ _ _ _ _ _ _ (by rw [e1]; exact hit2)] at h
@@ -242,7 +253,7 @@ theorem ostrDec_progress (tags allTags : List Tag) (bits : Bool) (tm : Int) :
             cases this
         | cont s2 n =>
           rw [iterate_cont _ _ _ _ _ _ (by rw [e1]; exact hit2)] at h
-          have := ostrFetchPart_cont allTags _ q s2 n rfl hit2
+          have := ostrFetchPart_cont (ostrEx tags allTags bits tm) _ q s2 n rfl hit2
           simp only at h
           have hk := (res_rc h).2
           omega
@@ -398,15 +409,10 @@ theorem lawfulRc_const_fail : LawfulRc (⟨fun n _ => (n, Rc.fail, 0)⟩ : Dec N
   · intro s p s1 k h; cases h
   · intro s p s1 k h ext; rfl
 
-theorem singleTag_iff (tags : List Tag) (tm : Int) :
-    singleTag tags tm = true ↔ tags.length + (if tm == 1 then 1 else 0) ≤ 1 := by
-  unfold singleTag; simp
-
 mutual
-theorem dec_lawfulRc : ∀ (td : TD) (tm : Int), inDomain td tm = true → LawfulRc (⟨dec td tm⟩ : Dec Node)
-  | .prim tags allTags (.ostr bits), tm, h => by
-    simp only [inDomain] at h
-    have := ostrDec_lawfulRc tags allTags bits tm ((singleTag_iff _ _).mp h)
+theorem dec_lawfulRc : ∀ (td : TD) (tm : Int), inDomain td = true → LawfulRc (⟨dec td tm⟩ : Dec Node)
+  | .prim tags allTags (.ostr bits), tm, _ => by
+    have := ostrDec_lawfulRc tags allTags bits tm
     have e : (⟨dec (.prim tags allTags (.ostr bits)) tm⟩ : Dec Node) = ⟨ostrDec tags allTags bits tm⟩ := by
       first | rfl | (congr 1; funext n p; simp only [dec])
     rw [e]; exact this
@@ -428,34 +434,32 @@ theorem dec_lawfulRc : ∀ (td : TD) (tm : Int), inDomain td tm = true → Lawfu
     rw [e]; exact lawfulRc_of_lawful _ (decPrim_lawful tags _ tm)
   | .seq tags ms es fe t2e, tm, h => by
     simp only [inDomain, Bool.and_eq_true] at h
-    obtain ⟨⟨h1, h2⟩, h3⟩ := h
+    obtain ⟨h2, h3⟩ := h
     have ht : ∀ e ∈ t2e, e.elNo < es.length := by
       intro e he
       have := List.all_eq_true.mp h2 e he
       simpa using this
-    have := seqDec_lawfulRc tags es fe t2e (fun i => decAt ms es i) tm ((singleTag_iff _ _).mp h1)
+    have := seqDec_lawfulRc tags es fe t2e (fun i => decAt ms es i) tm
       (fun i => decAt_lawfulRc ms es h3 i) ht
     have e : (⟨dec (.seq tags ms es fe t2e) tm⟩ : Dec Node) = ⟨seqDec tags es fe t2e (fun i => decAt ms es i) tm⟩ := by
       first | rfl | (congr 1; funext n p; simp only [dec])
     rw [e]; exact this
   | .setOf tags e el, tm, h => by
-    simp only [inDomain, Bool.and_eq_true] at h
-    obtain ⟨h1, h2⟩ := h
-    have := setOfDec_lawfulRc tags el (dec e 0) tm ((singleTag_iff _ _).mp h1) (dec_lawfulRc e 0 h2)
-      (dec_progress e 0)
-    have e' : (⟨dec (.setOf tags e el) tm⟩ : Dec Node) = ⟨setOfDec tags el (dec e 0) tm⟩ := by
+    simp only [inDomain] at h
+    have := setOfDec_lawfulRc tags el (dec e el.tagMode) tm (dec_lawfulRc e el.tagMode h)
+      (dec_progress e el.tagMode)
+    have e' : (⟨dec (.setOf tags e el) tm⟩ : Dec Node) = ⟨setOfDec tags el (dec e el.tagMode) tm⟩ := by
       first | rfl | (congr 1; funext n p; simp only [dec])
     rw [e']; exact this
   | .choice tags ms es xs t2e, tm, h => by
-    simp only [inDomain, Bool.and_eq_true] at h
-    obtain ⟨h1, h3⟩ := h
-    have := choiceDec_lawfulRc tags es xs t2e (fun i => decAt ms es i) tm ((singleTag_iff _ _).mp h1)
-      (fun i => decAt_lawfulRc ms es h3 i)
+    simp only [inDomain] at h
+    have := choiceDec_lawfulRc tags es xs t2e (fun i => decAt ms es i) tm
+      (fun i => decAt_lawfulRc ms es h i)
     have e : (⟨dec (.choice tags ms es xs t2e) tm⟩ : Dec Node) =
         ⟨choiceDec tags es xs t2e (fun i => decAt ms es i) tm⟩ := by
       first | rfl | (congr 1; funext n p; simp only [dec])
     rw [e]; exact this
-theorem decAt_lawfulRc : ∀ (ms : List TD) (es : List Elem), inDomainL ms es = true →
+theorem decAt_lawfulRc : ∀ (ms : List TD) (es : List Elem), inDomainL ms = true →
     ∀ i, LawfulRc (⟨decAt ms es i⟩ : Dec Node)
   | m :: ms, e :: es, h, 0 => by
     simp only [inDomainL, Bool.and_eq_true] at h
